@@ -340,3 +340,21 @@ func H_foreach_nested_same() {
 	}
 	same(got, ok, want, "nested foreach over the same array")
 }
+
+// H_match_kinds (seed C02h): `match` compares by identity (===): the subject is a symbolic
+// int bound either as an int or as its decimal STRING form is not needed — a string subject
+// drawn from a pool must only take string arms, an int subject only int arms, whatever the
+// order of the arms.
+func H_match_kinds() {
+	subjects := []string{`"1"`, `1`, `"0"`, `0`, `"a"`, `true`, `null`, `1.0`}
+	k := symx.Choose("subject", len(subjects))
+	orders := []string{
+		`1 => 10, "1" => 11, 0 => 20, "0" => 21, true => 30, null => 40, 1.0 => 50, default => 99`,
+		`"1" => 11, 1 => 10, "0" => 21, 0 => 20, null => 40, true => 30, 1.0 => 50, default => 99`,
+		`1.0 => 50, true => 30, null => 40, 0 => 20, "0" => 21, 1 => 10, "1" => 11, default => 99`,
+	}
+	o := symx.Choose("order", len(orders))
+	got, ok := run(`$s = `+subjects[k]+`; emit(match($s) { `+orders[o]+` });`, nil)
+	want := []int{11, 10, 21, 20, 99, 30, 40, 50}[k]
+	same(got, ok, []int{want}, "match-identity")
+}
